@@ -166,16 +166,38 @@ Theorem C09_rows_are_transpose : forall p nr m r, a_i2r m = idperm nr -> 0 <= r 
 Proof. exact rows_are_transpose. Qed.
 Print Assumptions C09_rows_are_transpose.
 
+(* ---- matrix level (Base_matrix, any column representation, any pending row permutation): one add_to /
+   multiply_target_and_add_to / multiply_source_and_add_to on the algorithm model is the dense operation on the dense
+   matrix read through the row dictionary; and the column invariant it needs is kept *)
+Theorem C09_matrix_add_refines : forall p nr m s t ct cs, 0 < p -> s <> t -> 0 <= t ->
+  a_col m t = Some ct -> a_col m s = Some cs -> c_wf p ct -> c_wf p cs -> same_kind ct cs ->
+  match a_add p m s t with Some m' => Some (a_abs p nr m') = d_add p (a_abs p nr m) s t | None => False end.
+Proof. exact matrix_add_refines. Qed.
+Print Assumptions C09_matrix_add_refines.
+
+Theorem C09_matrix_mul_target_refines : forall p nr m s c t ct cs, 0 < p -> s <> t -> 0 <= t ->
+  a_col m t = Some ct -> a_col m s = Some cs -> c_wf p ct -> c_wf p cs -> same_kind ct cs ->
+  match a_mta p m s c t with Some m' => Some (a_abs p nr m') = d_mta p (a_abs p nr m) s c t | None => False end.
+Proof. exact matrix_mul_target_refines. Qed.
+Print Assumptions C09_matrix_mul_target_refines.
+
+Theorem C09_matrix_mul_source_refines : forall p nr m c s t ct cs, 0 < p -> s <> t -> 0 <= t ->
+  a_col m t = Some ct -> a_col m s = Some cs -> c_wf p ct -> c_wf p cs -> same_kind ct cs ->
+  match a_msa (all_fixed false) p m c s t with Some m' => Some (a_abs p nr m') = d_msa p (a_abs p nr m) c s t | None => False end.
+Proof. exact matrix_mul_source_refines. Qed.
+Print Assumptions C09_matrix_mul_source_refines.
+
+Theorem C09_column_ops_keep_invariant : forall p val t s, 0 < p -> c_wf p t -> c_wf p s -> same_kind t s ->
+  c_wf p (c_add p t s) /\ c_wf p (c_mta p val t s) /\ c_wf p (c_msa (all_fixed false) p val t s).
+Proof. exact column_ops_keep_wf. Qed.
+Print Assumptions C09_column_ops_keep_invariant.
+
 (* ---- not proved; compared on every generated history by the correspondence check ---- *)
-(* missing: the invariants (sorted, reduced, zero-free, erased subset) as a matrix-wide invariant kept by every operation,
-   from which the whole-matrix refinement follows with the column theorems above *)
-Definition C09_matrix_refinement_full : Prop :=
-  forall p s t m, prime p -> (forall j c, a_col m j = Some c -> c_wf p c) ->
-    match a_add p m s t, d_add p (a_abs p (length (a_i2r m)) m) s t with
-    | Some m', Some d' => a_abs p (length (a_i2r m)) m' = d'
-    | None, None => True
-    | _, _ => False
-    end.
+(* missing: the same one-step refinement for insertion, removal, zero_entry, zero_column, swap_columns and the scaling
+   used for source = target, and the induction over whole histories *)
+Definition C09_matrix_history_refinement_full : Prop :=
+  forall p nr kind m es, prime p -> length (a_i2r m) = nr ->
+    a_abs p nr (a_insert (all_fixed false) false kind p m es) = d_insert false p nr (a_abs p nr m) es.
 (* missing: the union-find model k_* against the class specification dk_* *)
 Definition C09_compression_eq_plain_full : Prop :=
   forall kind p nr es (k : kmat) (d : dmat),
